@@ -135,6 +135,65 @@ func (k *c18KV) Delete(ctx context.Context, key string, opts ...clientv3.OpOptio
 	return k.KV.Delete(c, key, opts...)
 }
 
+// Put and Do are not used by the lease manager today; they are gated like a transaction so
+// that a rewrite of an acquire / release request into a plain Put or Do is still stepped.
+func (k *c18KV) Put(ctx context.Context, key, val string, opts ...clientv3.OpOption) (*clientv3.PutResponse, error) {
+	acq := ctx.Value(c18FlightKey{}) != nil
+	pre := "rel:" + key
+	if acq {
+		pre = "acq-pre:" + key
+	}
+	if !k.g.wait(pre) {
+		return nil, errC18Aborted
+	}
+	c, cancel := context.WithTimeout(context.Background(), 10*time.Second)
+	defer cancel()
+	resp, err := k.KV.Put(c, key, val, opts...)
+	if acq && err == nil {
+		if !k.g.wait("acq-post:" + key) {
+			return nil, errC18Aborted
+		}
+	}
+	return resp, err
+}
+
+func (k *c18KV) Do(ctx context.Context, op clientv3.Op) (clientv3.OpResponse, error) {
+	acq := ctx.Value(c18FlightKey{}) != nil
+	key := string(op.KeyBytes())
+	pre := "rel:" + key
+	if acq {
+		pre = "acq-pre:" + key
+	}
+	if !k.g.wait(pre) {
+		return clientv3.OpResponse{}, errC18Aborted
+	}
+	c, cancel := context.WithTimeout(context.Background(), 10*time.Second)
+	defer cancel()
+	resp, err := k.KV.Do(c, op)
+	if acq && err == nil && (op.IsPut() || op.IsDelete()) {
+		if !k.g.wait("acq-post:" + key) {
+			return clientv3.OpResponse{}, errC18Aborted
+		}
+	}
+	return resp, err
+}
+
+// Lease.Revoke is what Session.Close (ReleaseAll's second step) sends: parked until the
+// schedule expires that lease.
+type c18Lease struct {
+	clientv3.Lease
+	g *c18Gate
+}
+
+func (l *c18Lease) Revoke(ctx context.Context, id clientv3.LeaseID) (*clientv3.LeaseRevokeResponse, error) {
+	if !l.g.wait(fmt.Sprintf("revoke:%d", int64(id))) {
+		return nil, errC18Aborted
+	}
+	c, cancel := context.WithTimeout(context.Background(), 10*time.Second)
+	defer cancel()
+	return l.Lease.Revoke(c, id)
+}
+
 func (k *c18KV) Txn(ctx context.Context) clientv3.Txn {
 	return &c18Txn{kv: k, acq: ctx.Value(c18FlightKey{}) != nil}
 }
@@ -199,6 +258,7 @@ type c18Mgr struct {
 	gate    *c18Gate
 	flights map[string]string // rid -> phase: txn | reacq | commit
 	rels    map[string]int    // rid -> Release calls parked in front of their etcd request
+	revokes map[string]bool   // gate ids of parked ReleaseAll lease revokes
 }
 
 type c18World struct {
@@ -236,9 +296,10 @@ func (w *c18World) newMgr(idx int) *c18Mgr {
 	if err != nil {
 		w.t.Fatalf("etcd client: %v", err)
 	}
-	m := &c18Mgr{idx: idx, cli: cli, flights: map[string]string{}, rels: map[string]int{}}
+	m := &c18Mgr{idx: idx, cli: cli, flights: map[string]string{}, rels: map[string]int{}, revokes: map[string]bool{}}
 	m.gate = &c18Gate{pending: map[string][]chan bool{}, sig: w.sig, owner: m}
 	cli.KV = &c18KV{KV: cli.KV, g: m.gate}
+	cli.Lease = &c18Lease{Lease: cli.Lease, g: m.gate}
 	logger := slog.New(slog.NewTextHandler(io.Discard, nil))
 	id := strconv.Itoa(idx + 1)
 	switch w.kind {
@@ -366,6 +427,18 @@ func (w *c18World) exec(ev c18Ev) (bool, int) {
 				return false, -1
 			}
 		}
+		gid := fmt.Sprintf("revoke:%d", int64(id))
+		for _, m := range w.mgrs {
+			if m.revokes[gid] {
+				// the parked second step of that manager's ReleaseAll
+				delete(m.revokes, gid)
+				m.gate.open(gid, true)
+				if s := w.next(); s.kind != "radone" {
+					w.t.Fatalf("C18 harness: unexpected signal after revoke: %+v", s)
+				}
+				return true, -1
+			}
+		}
 		ctx, cancel := context.WithTimeout(context.Background(), 10*time.Second)
 		defer cancel()
 		_, _ = w.root.Revoke(ctx, id)
@@ -448,7 +521,18 @@ func (w *c18World) exec(ev c18Ev) (bool, int) {
 		}
 		return true, -1
 	case "releaseall":
-		m.releaseAll()
+		// first step of ReleaseAll (closed, map cleared, session dropped); the LeaseRevoke of
+		// Session.Close stays parked until an "orphan" event expires that lease
+		go func() {
+			m.releaseAll()
+			w.sig <- c18Signal{mgr: m, kind: "radone"}
+		}()
+		s := w.next()
+		if s.kind == "arrive" && strings.HasPrefix(s.id, "revoke:") {
+			m.revokes[s.id] = true
+		} else if s.kind != "radone" {
+			w.t.Fatalf("C18 harness: unexpected signal after ReleaseAll: %+v", s)
+		}
 		return true, -1
 	case "restart":
 		w.retire(m)
@@ -565,8 +649,9 @@ func c18Run(t *testing.T, endpoints []string, root *clientv3.Client, cs c18Case)
 	for _, ev := range cs.Evs {
 		var before map[string]*c18KVObs
 		var ownedBefore bool
-		if ev.K == "reldelete" && ev.B >= 0 && ev.B < len(w.mgrs) && ev.R >= 0 && ev.R < len(w.res) {
-			_, before = w.observe()
+		var obsBefore c18Obs
+		if (ev.K == "reldelete" || ev.K == "acqtxn" || ev.K == "reacqtxn") && ev.B >= 0 && ev.B < len(w.mgrs) && ev.R >= 0 && ev.R < len(w.res) {
+			obsBefore, before = w.observe()
 			ownedBefore = w.mgrs[ev.B].ownsRes(w.res[ev.R])
 		}
 		ok, code := w.exec(ev)
@@ -600,6 +685,23 @@ func c18Run(t *testing.T, endpoints []string, root *clientv3.Client, cs c18Case)
 				}
 			}
 			_ = ownedBefore
+		}
+		// ... and no etcd request of an Acquire overwrites the key of a lease that another
+		// broker currently owns (the owner would keep believing it owns a lease that is gone:
+		// the same loss as in oracle 2, and the writer becomes a second owner with its commit)
+		if ev.K == "acqtxn" || ev.K == "reacqtxn" {
+			self := strconv.Itoa(ev.B + 1)
+			for j, rid := range w.res {
+				b, a := before[w.key(rid)], after[w.key(rid)]
+				if b == nil || b.val == self || (a != nil && a.mod == b.mod) {
+					continue
+				}
+				for i := range w.mgrs {
+					if strconv.Itoa(i+1) == b.val && obsBefore.owns[i][j] {
+						setFail("write-clobbered-foreign-lease", fmt.Sprintf("step %d: the %s request of broker %s replaced key %s of the lease broker %s owns", step, ev.K, self, w.key(rid), b.val))
+					}
+				}
+			}
 		}
 	}
 	return done, obs, fail, failKey
@@ -684,6 +786,83 @@ func c18Gen(r *vRand) c18Case {
 	return cs
 }
 
+// c18GenWindow builds "one request parked, the world moves on" schedules: broker X is stopped
+// between two consecutive steps of one of its calls (every adjacent pair of steps of Acquire,
+// reacquire and Release, after a pre-state in which X's key may exist without X owning it:
+// restart with an orphaned lease, local half of a Release, expired session) while the other
+// brokers run complete operations and leases expire; then X's call continues.
+func c18GenWindow(r *vRand) c18Case {
+	cs := c18Case{NB: r.Range(2, 3)}
+	switch r.Intn(3) {
+	case 0:
+		cs.Kind, cs.Res = "partition", []string{"orders/0", "orders/1"}
+	case 1:
+		cs.Kind, cs.Res = "group", []string{"g1", "grp/2"}
+	default:
+		cs.Kind, cs.Res = "plain", []string{"x", "y/1"}
+	}
+	x, res := r.Intn(cs.NB), 0
+	other := func() int {
+		o := r.Intn(cs.NB - 1)
+		if o >= x {
+			o++
+		}
+		return o
+	}
+	one := func(k string, b int) []c18Ev { return []c18Ev{{K: k, B: b, R: res}} }
+	// pre-state
+	switch r.Intn(6) {
+	case 0: // nothing
+	case 1: // X owns
+		cs.Evs = c18Cat(cs.Evs, c18Full(x, res))
+	case 2: // X's previous incarnation left its key behind (orphaned lease 1)
+		cs.Evs = c18Cat(cs.Evs, c18Full(x, res), one("restart", x))
+	case 3: // X is in the middle of a Release
+		cs.Evs = c18Cat(cs.Evs, c18Full(x, res), one("rellocal", x))
+	case 4: // another broker owns
+		cs.Evs = c18Cat(cs.Evs, c18Full(other(), res))
+	case 5: // X owned, session expired, X has a new session through another resource
+		cs.Evs = c18Cat(cs.Evs, c18Full(x, res), one("expire", x), c18Full(x, 1))
+	}
+	// X's call, cut after step `cut`
+	var call []c18Ev
+	if r.Chance(75) {
+		call = c18Full(x, res)
+	} else {
+		call = []c18Ev{{K: "rellocal", B: x, R: res}, {K: "reldelete", B: x, R: res}}
+	}
+	cut := r.Range(1, len(call)-1)
+	cs.Evs = c18Cat(cs.Evs, call[:cut])
+	// the window: complete operations of the others, expiries
+	for n := r.Range(1, 4); n > 0; n-- {
+		o := other()
+		switch y := r.Intn(100); {
+		case y < 30:
+			cs.Evs = c18Cat(cs.Evs, []c18Ev{{K: "orphan", L: r.Range(1, 3)}})
+		case y < 60:
+			cs.Evs = c18Cat(cs.Evs, c18Full(o, res))
+		case y < 70:
+			cs.Evs = c18Cat(cs.Evs, one("rellocal", o), one("reldelete", o))
+		case y < 80:
+			cs.Evs = c18Cat(cs.Evs, one("expire", x))
+		case y < 88:
+			cs.Evs = c18Cat(cs.Evs, one("expire", o))
+		case y < 94:
+			cs.Evs = c18Cat(cs.Evs, one("reldelete", x))
+		default:
+			cs.Evs = c18Cat(cs.Evs, one("releaseall", o))
+		}
+	}
+	cs.Evs = c18Cat(cs.Evs, call[cut:])
+	// afterwards everybody tries to acquire
+	for b := 0; b < cs.NB; b++ {
+		if r.Chance(70) {
+			cs.Evs = c18Cat(cs.Evs, c18Full(b, res))
+		}
+	}
+	return cs
+}
+
 func c18Full(b, r int) []c18Ev {
 	return []c18Ev{{K: "acqbegin", B: b, R: r}, {K: "acqtxn", B: b, R: r}, {K: "reacqtxn", B: b, R: r}, {K: "commit", B: b, R: r}}
 }
@@ -714,7 +893,9 @@ func c18Corpus() []c18Case {
 		// transactions of the new incarnation's Acquire: the reacquire transaction must fail
 		{Kind: "plain", NB: 2, Res: []string{"x"}, Evs: c18Cat(c18Full(0, 0), one("restart", 0, 0), []c18Ev{{K: "acqbegin", B: 0, R: 0}, {K: "acqtxn", B: 0, R: 0}, {K: "orphan", L: 1}}, c18Full(1, 0), []c18Ev{{K: "reacqtxn", B: 0, R: 0}, {K: "commit", B: 0, R: 0}})},
 		// graceful shutdown, then a late acquire
-		{Kind: "partition", NB: 2, Res: []string{"orders/0", "orders/1"}, Evs: c18Cat(c18Full(0, 0), c18Full(0, 1), one("releaseall", 0, 0), c18Full(1, 0), c18Full(0, 0))},
+		{Kind: "partition", NB: 2, Res: []string{"orders/0", "orders/1"}, Evs: c18Cat(c18Full(0, 0), c18Full(0, 1), one("releaseall", 0, 0), c18Full(1, 0), []c18Ev{{K: "orphan", L: 1}}, c18Full(1, 0), c18Full(0, 0))},
+		// restart between the two steps of ReleaseAll: the lease is never revoked, it expires later
+		{Kind: "plain", NB: 2, Res: []string{"x"}, Evs: c18Cat(c18Full(0, 0), one("releaseall", 0, 0), one("restart", 0, 0), c18Full(1, 0), c18Full(0, 0), []c18Ev{{K: "orphan", L: 1}}, c18Full(1, 0))},
 	}
 }
 
@@ -832,7 +1013,7 @@ func c18Tags(evs []c18Ev, obs []c18Obs) map[string]bool {
 }
 
 func TestVerifC18(t *testing.T) {
-	rep := vNewReport("C18", "generated schedules (random merges of 3-10 Acquire / Release / fault scripts plus noise steps, up to ~60 events, over 2-3 brokers and 1-3 resources; plain, partition and group lease managers) of acquire steps / release halves / session expiry / ReleaseAll / restart / orphan-lease expiry executed on real LeaseManagers against one embedded etcd; non-trivial = a successful acquire plus an etcd step interleaved between the two halves of a Release, or a session expiry / restart; distinct = distinct executed event lists")
+	rep := vNewReport("C18", "generated schedules (60%: random merges of 3-10 Acquire / Release / fault scripts plus noise steps, up to ~60 events, over 2-3 brokers and 1-3 resources; 40%: one broker parked between two consecutive steps of an Acquire / reacquire / Release call, after a restart / half Release / expiry pre-state, while the others run complete operations and leases expire; plain, partition and group lease managers) of acquire steps / release halves / session expiry / ReleaseAll / restart / orphan-lease expiry executed on real LeaseManagers against one embedded etcd; non-trivial = a successful acquire plus an etcd step interleaved between the two halves of a Release, or a session expiry / restart; distinct = distinct executed event lists")
 	endpoints := testutil.StartEmbeddedEtcd(t)
 	root, err := clientv3.New(clientv3.Config{Endpoints: endpoints, DialTimeout: 5 * time.Second, Logger: zap.NewNop()})
 	if err != nil {
@@ -884,7 +1065,11 @@ func TestVerifC18(t *testing.T) {
 		r := vNewRand(vSeed())
 		n := vN(300, 3000)
 		for i := 0; i < n; i++ {
-			runOne(c18Gen(r.Fork()))
+			if i%5 < 2 {
+				runOne(c18GenWindow(r.Fork()))
+			} else {
+				runOne(c18Gen(r.Fork()))
+			}
 		}
 	}
 	rep.Cases("C18", "From KS Require Import lib.Base lib.Strings lib.EtcdKV model.Lease corr.LeaseCorr.", "case", "check_case", coq, jsons)
